@@ -780,10 +780,10 @@ pub fn property() -> Property {
                shape bombs (arity 0..7 arrays of arbitrary slots, counter-signature / key_ops / crit oddities); size/depth bombs up to 1 MiB (thorough 4 MiB): nesting to depth 2^17, huge declared lengths, chunk chains, wide flat arrays/maps/key sets/signer lists, \
                recipient nesting, and protected-header ⊃ counter-signature chains of depth up to 60000 in three shapes (protected / unprotected / alternating) x four forms (single counter-signature, array of one, array of two, alternating) inside nine carriers — through every decoding entry point (from_slice of every type, from_tagged_slice of the six tagged types, ProtectedHeader::from_cbor_bstr), \
                followed on accepted values by clone, ==, Debug, re-encode, drop and the to-be-signed / verify / MAC / decrypt helpers under their documented preconditions; in a supervised worker on a 2 MiB stack; \
-               oracle: no panic, no process death, heap peak <= 4096n+2MiB and total allocation <= 16384n+8MiB per entry point (>= 8x the maxima observed on the unchanged tree, which the evidence reports) (deterministic proxy for linear time), a watchdog for hangs (inconclusive, not a violation); plus a scaling oracle: for 22 families of wide inputs (labels ascending, descending and scattered) (n trailing KDF strings, n extras, n signers, n recipients, n keys, n chunks ...) thread CPU time of decode + follow-ups is measured on a quadrupling ladder and two consecutive steps costing more than 11x (linear: 4x, quadratic: 16x) fail; \
+               oracle: no panic, no process death, heap peak <= 4096n+2MiB and total allocation <= 16384n+8MiB per entry point (>= 8x the maxima observed on the unchanged tree, which the evidence reports) (deterministic proxy for linear time), a watchdog for hangs (inconclusive, not a violation); plus a scaling oracle: for 36 hand-written families of wide inputs (labels ascending, descending and scattered; n trailing KDF strings, n extras, n signers, n recipients, n keys, n chunks ...; two wide places of one input at once: both header buckets of each structure, body + signer / recipient, header + counter-signature ...) and for generated families (maps of a generated valid item widened) thread CPU time of decode + follow-ups is measured on a quadrupling ladder and two consecutive steps costing more than 11x (linear: 4x, quadratic: 16x) fail; \
                non-trivial = well-formed CBOR accepted by some entry point, or any bomb; distinct by input bytes",
         assumptions: &["'ordinary thread stack' = Rust's default 2 MiB for spawned threads, release build of the harness with overflow checks on", "time proportionality is checked through allocated bytes, a CPU-time quadrupling ladder on parametric wide inputs (threshold 11x on two consecutive steps) and a 120 s per-case watchdog"],
-        exhaustive_domains: &["scaling ladder (n, 4n, 16n, ... up to 4*10^5 elements / 2 MiB / 1 s) over 15 parametric wide-input families"],
+        exhaustive_domains: &["scaling ladder (n, 4n, 16n, ... up to 4*10^5 elements / 2 MiB / 1 s) over 36 parametric wide-input families"],
         case,
         exh_count,
         exh_case,
